@@ -22,6 +22,9 @@ R12.f  no stale aliases: an observer attribute never keeps a container its
        such a container.  R12.a/R12.c additionally hold at path level: an attribute the
        update phase writes is written on every returning path of reset that is
        compatible with the update path's configuration (no early exits).
+R12.g  a feature observer's own ``reset`` writes no attribute that
+       ``initialize_features`` reads after the statement that rebuilds the
+       features (``super().reset()`` / ``self.initialize_features()``).
 R12.e  environments: ``reset`` calls ``dispatcher.reset()`` before building
        the observation; attributes touched by ``step`` are re-established;
        the multi environment rebuilds its inner environment with the full
@@ -250,6 +253,7 @@ def run(ctx):
 
     # ---------------------------------------------------------------- R12.f
     stale_aliases(ctx, lc, cone, disp)
+    rebuild_before_features(ctx, lc, cone)
 
     # ---------------------------------------------------------------- R12.b
     reset_order(ctx, lc, cone, obs, disp, "reset", "R12.b")
@@ -692,6 +696,78 @@ def path_reset_cover(ctx, cls, upd, rst, rule, label, skip=(), also=()):
                     )
                     return n
     return n
+
+
+# --------------------------------------------------------------------------
+def rebuild_before_features(ctx, lc, cone):
+    """R12.g - in a feature observer's ``reset`` the state its features are
+    computed from is re-established *before* the features are rebuilt: a
+    statement of ``reset`` that comes after the one that triggers
+    ``initialize_features`` (``super().reset()`` / ``self.initialize_features()``)
+    must not write an attribute ``initialize_features`` reads - otherwise the
+    feature matrices right after a reset show the previous episode."""
+    from .common import self_attr_reads
+
+    chk, repo = ctx.chk, ctx.repo
+    chk.rule("R12.g", "a feature observer's reset re-establishes what initialize_features reads before it rebuilds the features")
+    n = 0
+    for c in cone:
+        rst = c.methods.get("reset")  # the class's own reset
+        init_f = repo.method(c, "initialize_features")
+        if rst is None or init_f is None or not rst.params:
+            continue
+        reads = set()
+        for f, _via in lc.self_closure(init_f, c):
+            reads |= self_attr_reads(f)
+        reads -= {"features", "dispatcher", "feature_sizes", "feature_dimensions"}
+        me = rst.params[0]
+
+        def triggers(st):
+            for x in ast.walk(st):
+                if isinstance(x, ast.Call) and isinstance(x.func, ast.Attribute):
+                    if x.func.attr == "initialize_features":
+                        return True
+                    recv = x.func.value
+                    is_super = isinstance(recv, ast.Call) and isinstance(recv.func, ast.Name) and recv.func.id == "super"
+                    is_self = isinstance(recv, ast.Name) and recv.id == me
+                    if is_super or is_self:
+                        ts, _nm = ctx.res.callees(rst, x, c)
+                        for t in ts:
+                            if any(g is init_f or g.name == "initialize_features" for g, _v in lc.self_closure(t, c)):
+                                return True
+            return False
+
+        body = [st for st in rst.node.body if not (isinstance(st, ast.Expr) and isinstance(st.value, ast.Constant))]
+        idx = next((i for i, st in enumerate(body) if triggers(st)), None)
+        if idx is None:
+            continue
+        n += 1
+        bad = None
+        for st in body[idx + 1:]:
+            for x in ast.walk(st):
+                if isinstance(x, ast.Attribute) and isinstance(x.value, ast.Name) and x.value.id == me and x.attr in reads and isinstance(x.ctx, (ast.Store, ast.Del)):
+                    bad = (x.attr, st)
+                if isinstance(x, ast.Call) and isinstance(x.func, ast.Attribute) and isinstance(x.func.value, ast.Name) and x.func.value.id == me:
+                    ts, _nm = ctx.res.callees(rst, x, c)
+                    for t in ts:
+                        if t.name == "initialize_features":
+                            continue
+                        w = {a.attr for a in lc.attr_writes(t, c)} & reads
+                        if w:
+                            bad = (sorted(w)[0], st)
+            if bad:
+                break
+        if bad:
+            chk.violation(
+                "R12.g", rst, bad[1],
+                f"`{ast.unparse(bad[1])[:70]}` re-establishes `self.{bad[0]}` only after `{ast.unparse(body[idx])[:40]}` has rebuilt the "
+                f"features from it: right after a reset the feature matrices are computed from the previous episode's `{bad[0]}`",
+                loc=rst.loc(bad[1]),
+            )
+        else:
+            chk.ok("R12.g", rst.qualname, rst.loc(), "state read by initialize_features is re-established before the features are rebuilt")
+    if n == 0:
+        raise AnalysisError("R12.g: no observer reset that rebuilds features found")
 
 
 # --------------------------------------------------------------------------
